@@ -108,9 +108,10 @@ theorem safe_getJavadoc (hE : EnvOk env I) {n : Nat} (h : Bd I n) : Safe env (Ac
   rw [hE.text, hr]
   exact Safe.pure e _ trivial
 
-theorem diagLc_mk {r : Range} (h : RangeGood env I r) (k : DiagKind) (m : String) (c hh : Option String) :
+theorem diagLc_mk {r : Range} (h : RangeGood env I r) (k : DiagKind) (m : String) (c hh : Option String)
+    (hc : synCtx c = true := by decide) :
     DiagLc env { kind := k, range := r, message := m, context := c, hint := hh, related := [] } :=
-  ⟨h.lc, by intro ri hri; cases hri⟩
+  ⟨h.lc, (by intro ri hri; cases hri), hc⟩
 
 def GoodArgs (env : Env) (I : List Char) (args : List ArgV) : Prop := ∀ a ∈ args, GoodArg env I a
 
@@ -286,13 +287,13 @@ theorem safe_recoveryAction {env : Env} {I : List Char} (hE : EnvOk env I) (msg 
     unfold fromParseError
     cases e with
     | invalidToken l =>
-      exact Safe.bind _ (safe_mkRange hE he he) (fun _ hr => Safe.pure _ _ ⟨hr.lc, by intro ri h; cases h⟩)
+      exact Safe.bind _ (safe_mkRange hE he he) (fun _ hr => Safe.pure _ _ (diagLc_mk hr _ _ _ _))
     | unrecognizedEof l ex =>
-      exact Safe.bind _ (safe_mkRange hE he he) (fun _ hr => Safe.pure _ _ ⟨hr.lc, by intro ri h; cases h⟩)
+      exact Safe.bind _ (safe_mkRange hE he he) (fun _ hr => Safe.pure _ _ (diagLc_mk hr _ _ _ _))
     | unrecognizedToken t ex =>
-      exact Safe.bind _ (safe_mkRange hE he.1 he.2) (fun _ hr => Safe.pure _ _ ⟨hr.lc, by intro ri h; cases h⟩)
+      exact Safe.bind _ (safe_mkRange hE he.1 he.2) (fun _ hr => Safe.pure _ _ (diagLc_mk hr _ _ _ _))
     | extraToken t =>
-      exact Safe.bind _ (safe_mkRange hE he.1 he.2) (fun _ hr => Safe.pure _ _ ⟨hr.lc, by intro ri h; cases h⟩)
+      exact Safe.bind _ (safe_mkRange hE he.1 he.2) (fun _ hr => Safe.pure _ _ (diagLc_mk hr _ _ _ _))
   refine Safe.bind _ (P := DiagLc env) ?_ (fun d hd => ?_)
   · unfold fromErrorRecovery
     exact Safe.bind _ hfe (fun d hd => Safe.pure _ _ hd)
